@@ -8,6 +8,10 @@
 (*   inject  : a datagram that owes nothing to an honest signature                                  *)
 (*   mut     : the mutated datagram must be a result of the NAMED mutation action of Auth.tla       *)
 (*   deliver : Run (handler entered) or Drop (not entered) of Auth.tla must allow what was observed *)
+(*             - including the source address and the verified-peer table (key -> addresses) that   *)
+(*             the real Network holds afterwards                                                    *)
+(*   acq     : the receiving node was made acquainted with a key at an address (history)            *)
+(*   restart : the driver built a new receiving node (acquaintances made again)                     *)
 EXTENDS Auth, Sequences, Json, IOUtils, TLCExt
 
 Traces == JsonDeserialize(IOEnv.TRACE_FILE)
@@ -19,6 +23,10 @@ VARIABLES tid, l, base
 tvars == <<vars, tid, l, base>>
 
 Ev == Traces[tid].events
+
+(* the verified-peer table of the receiving overlay as the driver read it from the real Network after the    *)
+(* delivery: a sequence of <<key name, address name>> pairs                                                  *)
+BookIn(e) == [k \in AllKeys |-> {q[2] : q \in {r \in Rng(e.book) : r[1] = k}}]
 
 TraceInit == /\ tid \in 1..Len(Traces) /\ l = 1 /\ base = Blank /\ Init
 
@@ -34,8 +42,14 @@ TraceNext ==
           /\ Mutate(e.name, IF e.from = "base" THEN base ELSE cur, e.d)
           /\ UNCHANGED base
        \/ /\ e.k = "deliver"
-          /\ IF e.entered THEN Run(e.o, e.peer, Rng(e.newv))
-                          ELSE Drop(e.o) /\ e.newv = <<>>
+          /\ IF e.entered THEN Run(e.o, e.peer, Rng(e.newv), e.src, BookIn(e))
+                          ELSE Drop(e.o, e.src) /\ e.newv = <<>> /\ BookIn(e) = book[e.o]
+          /\ UNCHANGED base
+       \/ /\ e.k = "acq"
+          /\ Acquaint(e.o, e.key, e.src)
+          /\ UNCHANGED base
+       \/ /\ e.k = "restart"
+          /\ Restart
           /\ UNCHANGED base
   /\ l' = l + 1 /\ UNCHANGED tid
 
